@@ -345,6 +345,9 @@ def stage_trace(ctx, st):
         sj = json.load(f)
     for k, v in sj.get("outcomes", {}).items():
         ctx.outcomes[k] = ctx.outcomes.get(k, 0) + v
+    pk = ctx.extra.setdefault("plan_kinds", {})
+    for k, v in sj.get("plan_kinds", {}).items():
+        pk[k] = pk.get(k, 0) + v
     ctx.traces += len(traces)
     ctx.events += sj.get("events", 0)
     ctx.evaluations += sj.get("events", 0)
@@ -386,11 +389,108 @@ def stage_mc(ctx, st):
     return r
 
 
+READ_OPS = {"HasCollection", "ListCollections", "HasIndex", "ListIndexes", "FindById", "FindAll", "ForEach",
+            "FindFirst", "Count", "Exists", "Derived", "Export"}
+
+
+def parse_emission(out):
+    """STATE / EVENT lines printed by MC_L1 (JSON strings containing JSON)."""
+    states, events = [], []
+    for line in out.splitlines():
+        if line.startswith('"STATE ') or line.startswith('"EVENT '):
+            try:
+                txt = json.loads(line)
+            except ValueError:
+                continue
+            kind, payload = txt.split(" ", 1)
+            obj = json.loads(payload)
+            if kind == "STATE":
+                states.append(obj["hist"])
+            else:
+                events.append(obj)
+    return states, events
+
+
+def stage_edges(ctx, st):
+    """Direction A (DESIGN.md 5.3): TLC enumerates the reachable graph of the abstract database in a
+    small scope; its edges (distinct states x operation instances) are executed on the real code
+    and the recorded executions are validated by TLC."""
+    import random
+    r = stage_mc(ctx, dict(st, kind="mc"))
+    states, events = parse_emission(r["out"])
+    if not states or not events:
+        raise Inconclusive("MC run emitted no states/events")
+    quick = ctx.tier == "quick"
+    rng = random.Random(ctx.seed * 7919 + 17)
+    ops = st.get("ops")              # restrict to these operation kinds (None = all)
+    evs = [e for e in events if ops is None or e["op"] in ops]
+    reads = [e for e in evs if e["op"] in READ_OPS]
+    writes = [e for e in evs if e["op"] not in READ_OPS]
+    nstates = st["states"][0] if quick else st["states"][1]
+    nreads = st["reads"][0] if quick else st["reads"][1]
+    nwrites = st["writes"][0] if quick else st["writes"][1]
+    sel_states = states if nstates <= 0 or nstates >= len(states) else rng.sample(states, nstates)
+    inp = os.path.join(ctx.work, "edges-%s.ndjson" % st["name"])
+    nh = ne = 0
+    with open(inp, "w") as f:
+        for hist in sel_states:
+            rs = reads if nreads <= 0 or nreads >= len(reads) else rng.sample(reads, nreads)
+            ws = writes if nwrites <= 0 or nwrites >= len(writes) else rng.sample(writes, nwrites)
+            if rs:
+                f.write(json.dumps({"op": "Reset", "numTable": "general", "timeTable": "general"}) + "\n")
+                for e in hist:
+                    f.write(json.dumps(dict(e, audit=False)) + "\n")
+                for e in rs:
+                    f.write(json.dumps(dict(e, audit=False)) + "\n")
+                nh += 1
+                ne += len(hist) + len(rs)
+            for w in ws:
+                f.write(json.dumps({"op": "Reset", "numTable": "general", "timeTable": "general"}) + "\n")
+                for e in hist:
+                    f.write(json.dumps(dict(e, audit=False)) + "\n")
+                f.write(json.dumps(dict(w, audit=True)) + "\n")
+                nh += 1
+                ne += len(hist) + 1
+    out = os.path.join(ctx.work, "edges-%s-trace.ndjson" % st["name"])
+    stats = os.path.join(ctx.work, "edges-%s-stats.json" % st["name"])
+    msg = run_driver(ctx, ["replay", "-in", inp, "-out", out, "-backends", st.get("backends", "bolt"),
+                           "-par", "14", "-stats", stats])
+    ctx.log("edges: %d model states, %d operation instances (%d reads, %d writes) -> %d histories, %d events; %s"
+            % (len(states), len(events), len(reads), len(writes), nh, ne, msg.strip().splitlines()[-1]))
+    traces = split_traces(out)
+    with open(stats) as f:
+        sj = json.load(f)
+    for k, v in sj.get("outcomes", {}).items():
+        ctx.outcomes[k] = ctx.outcomes.get(k, 0) + v
+    pk = ctx.extra.setdefault("plan_kinds", {})
+    for k, v in sj.get("plan_kinds", {}).items():
+        pk[k] = pk.get(k, 0) + v
+    ctx.traces += len(traces)
+    ctx.events += sj.get("events", 0)
+    ctx.evaluations += sj.get("events", 0)
+    ctx.extra["tlc_generated_edges_replayed"] = ctx.extra.get("tlc_generated_edges_replayed", 0) + ne
+    ctx.extra["model_graph"] = {"distinct_states": len(states), "operation_instances": len(events),
+                                "edges": len(states) * len(events),
+                                "exhaustive": (not quick) and nstates <= 0 and nreads <= 0 and nwrites <= 0}
+    if traces and len(ctx.samples) < 8:
+        for ln in traces[-1][1:3]:
+            ctx.samples.append(summarize_event(ln))
+    module = st.get("trace_module", "TraceL1")
+    found = validate_traces(ctx, module, st["invariants"], traces, st["name"], chunk=st.get("chunk", 40), par=14)
+    ctx.stage_log.append({"stage": st["name"], "kind": "tlc-generated edges", "histories": nh, "events": ne,
+                          "invariants": st["invariants"], "rejections": len(found)})
+    for info in found:
+        if len(ctx.violations) >= MAX_REPORTS and known_match(ctx, info, st) is None:
+            ctx.extra["further_rejections_not_reported"] = ctx.extra.get("further_rejections_not_reported", 0) + 1
+            continue
+        report(ctx, info, st, module, st["invariants"])
+
+
 def stage_custom(ctx, st):
     return st["fn"](ctx, st)
 
 
-STAGES = {"trace": stage_trace, "mc": stage_mc, "custom": stage_custom}
+STAGES = {"trace": stage_trace, "mc": stage_mc, "custom": stage_custom, "edges": stage_edges}
 
 
 # ------------------------------------------------------------------ evidence
